@@ -154,6 +154,9 @@ SIBLINGS = {
     "empty": {"zz_empty.xsd": ""},
     "binary-ish": {"zz_bin.xsd": "\x00\x01\x02 not xml at all �"},
     "same-namespace-clone": {"zz_clone.xsd": SIB_VALID.replace("zulu", "alpha").replace("RecZulu", "RecAlpha")},
+    # an unreachable sibling that no parser could survive (nested 30 000 deep) or that is simply huge: nobody reads it
+    "deeply-nested-unrelated": {"zz_deep.xsd": "<n>" * 30000 + "</n>" * 30000},
+    "large-unrelated": {"zz_large.xsd": SIB_VALID.replace("</xs:schema>", "<!-- " + "x" * 3_000_000 + " --></xs:schema>")},
     # file names are case-sensitive: F0.xsd is not f0.xsd, whatever it contains
     "case-twin-names": {"F0.xsd": SIB_VALID, "F1.XSD": SIB_VALID.replace("zulu", "yankee").replace("RecZulu", "RecYankee"),
                         "f2.XSD": SIB_VALID.replace("zulu", "xray").replace("RecZulu", "RecXray"), "F3.Xsd": SIB_VALID},
